@@ -12,6 +12,11 @@ Grammar accepted (anything else aborts):
   E ::= None | value | value_type | self.value_type | self._F | <local> | getattr(self, '_F', None)
       | datatypes.trivial_cast(E, E)
   C ::= E is None | E is not None
+      | isinstance(self.parent, SubmodelElementList) and self.parent.type_value_list_element in (Property, Range)
+        and value_type is not self.parent.value_type_list_element          (exactly this conjunction: AASd-109 guard)
+  raise base.AASConstraintViolation(<int literal>, ...) is accepted besides ValueError / TypeError.
+The value_type setters get one more parameter `list_other : bool`: the object is an item of a SubmodelElementList of
+Properties / Ranges whose value_type_list_element is another class than the argument (the truth value of the guard above).
 """
 import ast
 import os
@@ -47,6 +52,7 @@ class SetterTr:
             raise Abort(f"{cname}.{attr} setter: parameter name {self.arg}")
         self.is_type_arg = self.arg == "value_type"
         self.n = 0
+        self.uses_guard = False
 
     def fresh(self, base):
         self.n += 1
@@ -73,7 +79,13 @@ class SetterTr:
             return env["self." + n.args[1].value]
         raise Abort(f"{self.cname}.{self.attr}: unsupported expression: " + src_of(n))
 
+    GUARD109 = ("isinstance(self.parent, SubmodelElementList) and self.parent.type_value_list_element in (Property, Range) "
+                "and (value_type is not self.parent.value_type_list_element)")
+
     def C(self, n, env):
+        if isinstance(n, ast.BoolOp) and src_of(n) == self.GUARD109 and self.is_type_arg:
+            self.uses_guard = True
+            return "list_other"
         if isinstance(n, ast.Compare) and len(n.ops) == 1 and isinstance(n.ops[0], (ast.Is, ast.IsNot)) \
                 and isinstance(n.comparators[0], ast.Constant) and n.comparators[0].value is None:
             t, _ = self.E(n.left, env)
@@ -98,6 +110,10 @@ class SetterTr:
                 raise Abort(f"{self.cname}.{self.attr}: raise after an assignment to self.*")
             f = st.exc.func if isinstance(st.exc, ast.Call) else None
             name = f.id if isinstance(f, ast.Name) else None
+            if isinstance(st.exc, ast.Call) and src_of(st.exc.func) in ("base.AASConstraintViolation", "AASConstraintViolation") \
+                    and st.exc.args and isinstance(st.exc.args[0], ast.Constant) and type(st.exc.args[0].value) is int \
+                    and st.cause is None:
+                return f"inr (EAASd {st.exc.args[0].value})"
             if name not in ("ValueError", "TypeError") or st.cause is not None:
                 raise Abort(f"{self.cname}.{self.attr}: unsupported raise: " + src_of(st))
             return "inr " + ("EValue" if name == "ValueError" else "EType")
@@ -146,7 +162,8 @@ class SetterTr:
             env["self." + k] = (f, "ty" if f == "f_value_type" else "val")
         body = self.block(fn.body, [], env, False)
         argty = "option pcls" if self.is_type_arg else "option pyval"
-        return (f"Definition set_{self.cname}_{self.attr} (f_value_type : option pcls) (f_a f_b : option pyval) (arg : {argty})\n"
+        extra = " (list_other : bool)" if self.is_type_arg else ""
+        return (f"Definition set_{self.cname}_{self.attr} (f_value_type : option pcls) (f_a f_b : option pyval){extra} (arg : {argty})\n"
                 f"  : (option pcls * option pyval * option pyval) + err :=\n  {body}.\n")
 
 
@@ -157,8 +174,9 @@ def translate(repo):
         if fname not in mods:
             mods[fname], _src = parse(os.path.join(repo, "sdk/basyx/aas/model", fname))
         fn = find_setter(find_class(mods[fname], cname), attr)
-        defs.append(SetterTr(cname, attr, fn).translate(fn))
-        info[f"{cname}.{attr}"] = len(fn.body)
+        tr = SetterTr(cname, attr, fn)
+        defs.append(tr.translate(fn))
+        info[f"{cname}.{attr}"] = {"statements": len(fn.body), "aasd109_guard": tr.uses_guard}
     text = ("(* GENERATED by tools/py2coq/typedsetters.py from sdk/basyx/aas/model/{submodel,base}.py on every run - do not edit. *)\n"
             "From Coq Require Import List ZArith Bool.\n"
             "From Basyx Require Import model.ConstraintsBase model.TypedBase gen.Gen_TypedValues model.TypedValue.\n"
